@@ -1393,11 +1393,7 @@ mzd_t *mzd_concat(mzd_t *C, mzd_t const *A, mzd_t const *B) {
     m4ri_die("mzd_concat: C has wrong dimension!\n");
   }
 
-  for (rci_t i = 0; i < A->nrows; ++i) {
-    word *dst_truerow = mzd_row(C, i);
-    word const *src_truerow = mzd_row_const(A, i);
-    for (wi_t j = 0; j < A->width; ++j) { dst_truerow[j] = src_truerow[j]; }
-  }
+  for (rci_t i = 0; i < A->nrows; ++i) { mzd_copy_row(C, i, A, i); }
 
   for (rci_t i = 0; i < B->nrows; ++i) {
     for (rci_t j = 0; j < B->ncols; ++j) {
@@ -1420,17 +1416,9 @@ mzd_t *mzd_stack(mzd_t *C, mzd_t const *A, mzd_t const *B) {
     m4ri_die("mzd_stack: C has wrong dimension!\n");
   }
 
-  for (rci_t i = 0; i < A->nrows; ++i) {
-    word const *src_truerow = mzd_row_const(A, i);
-    word *dst_truerow = mzd_row(C, i);
-    for (wi_t j = 0; j < A->width; ++j) { dst_truerow[j] = src_truerow[j]; }
-  }
+  for (rci_t i = 0; i < A->nrows; ++i) { mzd_copy_row(C, i, A, i); }
 
-  for (rci_t i = 0; i < B->nrows; ++i) {
-    word *dst_truerow = mzd_row(C, A->nrows + i);
-    word const *src_truerow = mzd_row_const(B, i);
-    for (wi_t j = 0; j < B->width; ++j) { dst_truerow[j] = src_truerow[j]; }
-  }
+  for (rci_t i = 0; i < B->nrows; ++i) { mzd_copy_row(C, A->nrows + i, B, i); }
 
   __M4RI_DD_MZD(C);
   return C;
